@@ -8,22 +8,29 @@
 #include <cstdio>
 #include <cstring>
 using namespace FIX8;
+#include <atomic>
+#include <vector>
+#include <string>
 struct SLogger : Logger
 {
-  mutable std::ostringstream _os;
+  mutable std::ostringstream _os; std::atomic<int> _written{0};
   SLogger() : Logger(LogFlags(), Levels(Logger::All & ~(1 << Logger::Debug))) {}
   std::ostream& get_stream() const override { return _os; }
+  void process_logline(LogElement *le) override { Logger::process_logline(le); ++_written; }      // the real writer, counted
 };
-static int count_lines(const std::string& s) { int n = 0; for (char c : s) if (c == '\n') ++n; return n; }
+static std::vector<std::string> g_texts;          // texts of the counterexample (optional), in submission order
+static const std::string& text_of(int i) { static const std::string dflt("line"); return i < int(g_texts.size()) ? g_texts[i] : dflt; }
+static int count_lines(const SLogger& l) { return l._written.load(); }
 int main(int argc, char **argv)
 {
   const int lines = argc > 1 ? atoi(argv[1]) : 2; const char *want = argc > 2 ? argv[2] : "any";
+  for (int i = 3; i < argc; ++i) { std::string t; for (const char *p = argv[i]; p[0] && p[1]; p += 2) { unsigned b; sscanf(p, "%2x", &b); t += char(b); } g_texts.push_back(t); }
   int bad = 0;
   if (strstr(want, "ret") || !strcmp(want, "any"))
   {
-    SLogger *l = new SLogger; bool r = l->send("line", Logger::Info);
-    for (int i = 0; i < 2000 && count_lines(l->_os.str()) < 1; ++i) hypersleep<h_milliseconds>(1);
-    int w = count_lines(l->_os.str());
+    SLogger *l = new SLogger; bool r = l->send(text_of(0), Logger::Info);
+    for (int i = 0; i < 2000 && count_lines(*l) < 1; ++i) hypersleep<h_milliseconds>(1);
+    int w = count_lines(*l);
     printf("send() returned %s, lines written %d\n", r ? "true" : "false", w);
     if (!r && w == 1) { ++bad; printf("VIOLATED: submit reported failure for a line that was accepted and written\n"); }
     bool r2 = l->send("dbg", Logger::Debug); printf("send() at a disabled level returned %s\n", r2 ? "true" : "false");
@@ -33,9 +40,10 @@ int main(int argc, char **argv)
     for (int att = 0; att < 200; ++att)
     {
       SLogger *l = new SLogger; hypersleep<h_milliseconds>(1);
-      for (int i = 0; i < lines; ++i) l->send("line", Logger::Info);
+      for (int i = 0; i < lines; ++i) l->send(text_of(i), Logger::Info);
+      if (att & 1) hypersleep<h_milliseconds>(5);          // odd attempts: give the thread time to write before stop (a line must not end the thread)
       l->stop();
-      int w = count_lines(l->_os.str());
+      int w = count_lines(*l);
       if (w != lines) { ++bad; printf("attempt %d: %d lines accepted before stop(), %d written when stop() returned\nVIOLATED: accepted lines lost on stop\n", att, lines, w); break; }
     }
   }
